@@ -253,6 +253,45 @@ func c17LongHistory(c *fw.Ctx, m int, triple []int) {
 	c.Count("transitions", int64(m+3))
 }
 
+// ---- very many Clear() calls on one map (a generation counter kept in a narrow integer wraps here)
+
+var c17ClearCounts = []int{255, 256, 257, 65535, 65536, 65537}
+
+func c17ManyClears(c *fw.Ctx, n int, oi int) {
+	mp := utilities.NewCharReferenceMap()
+	o := c17Ops[oi]
+	c17Apply(mp, o)
+	for i := 0; i < n; i++ {
+		mp.Clear()
+	}
+	names := []string{"A", "B", "nil"}
+	check := func(ivs []c17Interval, what string) bool {
+		for _, p := range c17Probes {
+			var got string
+			if pv := fw.Try(func() { got = c17Classify(mp.Lookup(p)) }); pv != nil {
+				got = "panic"
+			}
+			if want := names[c17ModelLookup(ivs, p)]; got != want {
+				c.Violation("lookup-after-many-clears", "%s, then %d x Clear()%s: Lookup(%#x) = %s, expected %s", o, n, what, p, got, want)
+				return false
+			}
+		}
+		return true
+	}
+	if !check(nil, "") {
+		return
+	}
+	// and the map still works afterwards
+	o2 := c17Ops[(oi+5)%len(c17Ops)]
+	if o2.kind == 2 {
+		o2 = c17Ops[0]
+	}
+	c17Apply(mp, o2)
+	check(c17ModelApply(nil, o2), ", then "+o2.String())
+	c.Eval(1)
+	c.Nontrivial()
+}
+
 // BFS with probe-vector canonicalisation (closure or depth cap).
 func c17BFS(c *fw.Ctx, depthCap int) {
 	seen := map[string]bool{}
@@ -436,7 +475,7 @@ func init() {
 		ID:    "C17",
 		Level: "model_checking",
 		Rule: "all histories of AddInterval/AddDefaultInterval/Clear over the boundary endpoints x {A,B,nil} up to the depth bound, each replayed on a fresh CharReferenceMap and compared probe by probe (17 probes: endpoints and neighbours) with an interval-list model by reference identity; " +
-			"plus every triple of registrations above U+00FF on top of 13..255 live filler registrations; plus an explicit-state BFS with the probe vector as state key; plus derived checks through a real tokenizer's dispatch table and the word/whitespace states' range toggles (after Clear and on top of the default ranges, three probe texts, and an untouched second state must keep its defaults); every history is non-trivial except the empty one",
+			"plus one registration followed by 255..257 and 65535..65537 Clear() calls; plus every triple of registrations above U+00FF on top of 13..255 live filler registrations; plus an explicit-state BFS with the probe vector as state key; plus derived checks through a real tokenizer's dispatch table and the word/whitespace states' range toggles (after Clear and on top of the default ranges, three probe texts, and an untouched second state must keep its defaults); every history is non-trivial except the empty one",
 		Assume: []string{"probe-vector canonicalisation: equal probe vectors have equal futures on the probes for any implementation that answers lookups from the latest covering registration; the un-merged full enumeration does not rely on it"},
 		Spaces: func(tier string) []fw.Space {
 			depth, bfsDepth := 2, 3
@@ -478,6 +517,11 @@ func init() {
 					n := int64(len(ho))
 					t := i % (n * n * n)
 					return fmt.Sprintf("%d filler registrations, then [%s]", c17LongSizes()[i/(n*n*n)], c17HistStr([]int{ho[t/(n*n)], ho[t/n%n], ho[t%n]}))
+				}},
+				{Name: "many-clears", N: int64(len(c17ClearCounts) * len(c17Ops)), Timeout: 300e9, Run: func(c *fw.Ctx, i int64) {
+					c17ManyClears(c, c17ClearCounts[int(i)/len(c17Ops)], int(i)%len(c17Ops))
+				}, Repr: func(i int64) string {
+					return fmt.Sprintf("%s, then %d x Clear(), lookups, one more registration, lookups", c17Ops[int(i)%len(c17Ops)], c17ClearCounts[int(i)/len(c17Ops)])
 				}},
 				{Name: "pumped-histories", N: (countStrings(k, 2) - 1) * 6, Run: func(c *fw.Ctx, i int64) {
 					base := seqByIndex(k, 1+i/6)
